@@ -46,10 +46,15 @@ type verifC10Env struct {
 	clock     *verifClock
 }
 
-func verifC10Server() *verifC10Env {
+func verifC10Server() *verifC10Env { return verifC10ServerOpt(verifSrvOpt{noSecurity: true}) }
+
+// verifC10ServerOpt: a server whose peer store, BEP 44 store and announce callback record what happens.
+func verifC10ServerOpt(o verifSrvOpt) *verifC10Env {
 	env := &verifC10Env{peers: &verifRecPeers{}, store: &verifRecStore{m: bep44.NewMemory()}, clock: &verifClock{t: time.Unix(1700000000, 0)}}
-	env.v = verifStartServer(verifSrvOpt{noSecurity: true, peerStore: env.peers, store: env.store,
-		onAnnounce: func(ih [20]byte, ip net.IP, port int, portOk bool) { env.callbacks++ }})
+	o.peerStore = env.peers
+	o.store = env.store
+	o.onAnnounce = func(ih [20]byte, ip net.IP, port int, portOk bool) { env.callbacks++ }
+	env.v = verifStartServer(o)
 	env.v.s.tokenServer.timeNow = func() time.Time { return env.clock.t }
 	return env
 }
